@@ -380,6 +380,26 @@ def r7_3(prog, rep, pp):
             rep.info("R7.3", "formulae:1", q, f"known long-lived binding `{q}` no longer exists", "inventory entry is stale (harmless)")
 
 
+def _subclass_of(prog, c, root):
+    seen = set()
+    work = [c]
+    while work:
+        k = work.pop()
+        if k.qual in seen:
+            continue
+        seen.add(k.qual)
+        for b in k.node.bases:
+            d = dotted(b)
+            if d is None:
+                continue
+            kind, q = prog.resolve(k.module, d.split(".")[0]) if "." not in d else (None, None)
+            if kind == "class" and q in prog.classes:
+                if prog.classes[q] is root:
+                    return True
+                work.append(prog.classes[q])
+    return False
+
+
 def r7_4(prog, rep, pp):
     for q in sorted(pp.stateful):
         cls = prog.classes[q]
@@ -489,6 +509,25 @@ def r7_5(prog, rep, pp):
     obl(rep, anchor, anchor.node, "R7.5", len(rets) == 1 and unparse(rets[0].targets[0]) == f"self._dicts[0][{anchor.params[1]}]",
         "VarLookupDict.__setitem__ can only reach its private first dict (never a user namespace)")
     obl(rep, anchor, anchor.node, "R7.5", not bad, "no package code writes through a namespace / frame dict", f"{len(prog.functions)} functions scanned")
+    # encoding objects (Treatment(), Sum(), user subclasses of Encoding) are created by the USER and handed in by name
+    # (`C(x, enc)`): they live in the caller's namespace and may serve several factors and several designs, so nothing but
+    # their constructor may write to them
+    enc_root = prog.cls("categorical.Encoding")
+    enc_classes = [c for c in prog.classes.values() if c is enc_root or _subclass_of(prog, c, enc_root)]
+    n_enc = 0
+    for c in sorted(enc_classes, key=lambda c: c.qual):
+        for mn, m in sorted(c.methods.items()):
+            if mn in ("__init__", "__new__"):
+                continue
+            n_enc += 1
+            writes = [(node, attr, kind) for node, recv, attr, kind, root in _state_writes(m)
+                      if isinstance(recv, ast.Name) and recv.id in (m.params[:1] or ["self"])]
+            for node, attr, kind in writes:
+                obl(rep, m, node, "R7.5", False, f"`{short(node, 70)}` ({kind} on the encoding object)", "",
+                    f"{c.name}.{mn} writes `self.{attr}`: the encoding object belongs to the caller (it is passed by name and can be used "
+                    "for several factors and designs), so state kept on it leaks from one evaluation into the next")
+    obl(rep, enc_root.methods.get("__init__") or next(iter(enc_root.methods.values())), enc_root.node, "R7.5", n_enc >= 4,
+        "the methods of the encoding classes never write to the encoding object", f"{len(enc_classes)} classes, {n_enc} methods scanned")
     inplace_kw = []
     for q, f in sorted(prog.functions.items()):
         for c in calls_in(f.node, local=False):
